@@ -54,7 +54,7 @@ def find_struct(gr, key):
 
 
 def run(res, prop, propfile, corpus, *, entry="VT", use_ctx=False, spec=True, allocs=False,
-        require_generated=True, classify=None, extra=None, tag=None, pre_build=None):
+        require_generated=True, classify=None, extra=None, tag=None, pre_build=None, spec_cmp="obs_same_set"):
     """Runs the pipeline and the standard classification. Returns (GenRun, coq results) for extra checks."""
     res.assumptions = TRUSTED_GEN
     res.coverage["trusted_base"] = TRUSTED_GEN
@@ -87,7 +87,7 @@ def run(res, prop, propfile, corpus, *, entry="VT", use_ctx=False, spec=True, al
     if obs is None:
         raise RuntimeError("driver failed: " + getattr(gr, "drv_error", ""))
     iptab = genfam.classify_ips(ip_strings(corpus)) if needs_ip(corpus) else {}
-    results = gr.coq_check(ip_table=iptab, entry=entry, use_ctx=use_ctx, spec=spec)
+    results = gr.coq_check(ip_table=iptab, entry=entry, use_ctx=use_ctx, spec=spec, spec_cmp=spec_cmp)
     if results is None:
         return gr, None
     kf = known_findings(prop)
